@@ -933,10 +933,29 @@ func evalActionDelete(node *ActionExpression, env *Environment) Object {
 
 		env.MarkModified(id.Value)
 
-		return addObj.Delete(val)
+		errObj := addObj.Delete(val)
+		if !isError(errObj) && isEmptySet(addObj) {
+			// a set is never empty: deleting its last elements removes the attribute
+			env.Remove(id.Value)
+		}
+
+		return errObj
 	}
 
 	return UNDEFINED
+}
+
+func isEmptySet(obj Object) bool {
+	switch set := obj.(type) {
+	case *StringSet:
+		return len(set.Value) == 0
+	case *NumberSet:
+		return len(set.Value) == 0
+	case *BinarySet:
+		return len(set.Value) == 0
+	}
+
+	return false
 }
 
 func evalActionRemove(node *ActionExpression, env *Environment) Object {
